@@ -223,6 +223,13 @@ func newPool(name string) *pool {
 		}
 		p.cold[size] = we.NewInstance(p.log, fmt.Sprintf("%s-c%d-cold", name, size), we.Opt{CacheEntries: size})
 	}
+	// First request of an instance pays one-time lazy setup; keep that out of
+	// the timed replays.
+	for _, size := range []int{0, 1, -1} {
+		for _, in := range append(append([]*we.Instance(nil), p.insts[size]...), p.cold[size]) {
+			in.Init("exch", we.Anon, 0, "warm", nil)
+		}
+	}
 	return p
 }
 
@@ -322,20 +329,33 @@ func contSteps(h history) []step {
 }
 
 func evaluate(r *mon.Run, p *pool, h history, idx int) {
-	results := map[string][]outcome{}
-	for _, c := range configs {
-		t0 := time.Now()
-		outs, err := run(p, h, c, fmt.Sprintf("h%d-%s", idx, c.Name))
-		if err != nil {
-			r.Fatal("history %d (%s) under %s: %v", idx, h.Shape, c.Name, err)
+	// A replay that took too long in real time is not judged (real time would
+	// leak into the +-2 s margin); it is retried, and only a history that is
+	// slow three times in a row is skipped and counted.
+	var results map[string][]outcome
+	for attempt := 0; ; attempt++ {
+		results = map[string][]outcome{}
+		slow := false
+		for _, c := range configs {
+			t0 := time.Now()
+			outs, err := run(p, h, c, fmt.Sprintf("h%d-%s", idx, c.Name))
+			if err != nil {
+				r.Fatal("history %d (%s) under %s: %v", idx, h.Shape, c.Name, err)
+			}
+			if time.Since(t0) > 900*time.Millisecond {
+				slow = true
+				break
+			}
+			results[c.Name] = outs
 		}
-		if el := time.Since(t0); el > 900*time.Millisecond {
-			// Real time between minting and presenting leaked into the ages
-			// beyond the margin: do not judge this history.
+		if !slow {
+			break
+		}
+		r.Count("history_replays_retried_slow", 1)
+		if attempt == 2 {
 			r.Count("histories_skipped_slow", 1)
 			return
 		}
-		results[c.Name] = outs
 	}
 	cs := contSteps(h)
 	var shape strings.Builder
@@ -442,7 +462,7 @@ func main() {
 		"lru:hit", "lru:miss", "lru:evicting-put", "concurrent:turn-accepted", "concurrent:cache-miss-path-taken")
 	r.Assume("virtual time = data shifting: the TTL code compares time.Now() only with token CreatedAt and cache expiresAt; re-sealing with CreatedAt-=d and shifting expiresAt by -d is 'advance by d'")
 	r.Assume("tokens are authentic and paired as a real client holds them; a missing/foreign call token on a cache hit is outside this property (C12: 'whenever the server has to consult it')")
-	r.Assume("no verdict inside the +-2 s band around TTL; histories whose real execution took > 0.9 s are skipped and counted")
+	r.Assume("no verdict inside the +-2 s band around TTL; a replay that took > 0.9 s of real time is retried (3x), then skipped and counted")
 
 	t0 := time.Now()
 	ttls := []int64{10, 60, 300, 3600}
